@@ -545,7 +545,7 @@ class PoolSuite(Suite):
               "user_deadlock_ends": 0, "dependent_pairs": 0,
               "cv_entry_yield_cases": 0, "current_is_stopped": 0, "current_any_enqueued": 0, "current_co_await_inline": 0,
               "current_co_await_resubmitted": 0, "current_api_from_non_worker": 0, "closures_large_heap": 0,
-              "closures_via_caller_function": 0, "fn_throwing": 0, "fn_threw_and_reported": 0, "fn_throwing_cancelled": 0,
+              "closures_via_caller_function": 0, "fn_throwing": 0, "fn_threw_and_reported": 0,
               "fn_void": 0, "fn_large_closure": 0, "lock_blocks": 0, "two_pool_cases": 0, "other_pool_stops": 0, "other_pool_destroys": 0}
         for c in cases:
             o = outs.get(str(c["id"]), [])
